@@ -66,8 +66,17 @@ class L(object):
   def __init__(self, fmt, *nodes):
     self.fmt, self.nodes = fmt, nodes
 
+  def flat_nodes(self):
+    out = []
+    for n in self.nodes:
+      if isinstance(n, Node):
+        out.append(n)
+      elif isinstance(n, L):
+        out.extend(n.flat_nodes())
+    return out
+
   def resolve(self, em):
-    return self.fmt.format(*[em.name(n) if isinstance(n, Node) else n for n in self.nodes])
+    return self.fmt.format(*[em.name(n) if isinstance(n, Node) else n.resolve(em) if isinstance(n, L) else n for n in self.nodes])
 
 
 class Builder(object):
@@ -81,6 +90,7 @@ class Builder(object):
     self.side = []        # side conditions constraining stubs: list of L
     self.stubs = []       # dicts: kind, arg(s), res, origin
     self.counter = 0
+    self.stub_memo = {}
     self.zero = self.const(0.0)   # nid 0 == +0.0 (used as padding id)
 
   # -- construction -------------------------------------------------------
@@ -169,7 +179,10 @@ class Builder(object):
 
   # contract stubs ---------------------------------------------------------
   def log(self, a, origin=None):
+    if ("log", a.nid) in self.stub_memo:
+      return self.stub_memo[("log", a.nid)]
     r = self.freevar("log")
+    self.stub_memo[("log", a.nid)] = r
     ab = "%s_ab" % r.attr
     self.stubs.append(dict(kind="log", arg=a, res=r, origin=origin, aux=ab))
     self.side.append(L("(= ((_ to_fp 8 24) {1}) {0})", a, ab))
@@ -186,7 +199,10 @@ class Builder(object):
     return r
 
   def pow2(self, e, origin=None):
+    if ("pow2", e.nid) in self.stub_memo:
+      return self.stub_memo[("pow2", e.nid)]
     r = self.freevar("pow2", nosub=True)
+    self.stub_memo[("pow2", e.nid)] = r
     self.stubs.append(dict(kind="pow2", arg=e, res=r, origin=origin))
     ei = "((_ fp.to_sbv 12) RTZ {0})"
     exact = "((_ to_fp 8 24) (concat #b0 ((_ extract 7 0) (bvadd " + ei + " #x07f)) #b00000000000000000000000))"
@@ -200,7 +216,10 @@ class Builder(object):
 
   def bounded(self, kind, a, lo, hi, origin=None):
     """tanh / sigmoid: value in [lo, hi], NaN iff argument NaN; monotone pairs added by close_stubs()."""
+    if (kind, a.nid) in self.stub_memo:
+      return self.stub_memo[(kind, a.nid)]
     r = self.freevar(kind)
+    self.stub_memo[(kind, a.nid)] = r
     self.stubs.append(dict(kind=kind, arg=a, res=r, origin=origin))
     self.side.append(L("(=> (not (fp.isNaN {0})) (and (fp.leq %s {1}) (fp.leq {1} %s)))" % (fp_lit(lo), fp_lit(hi)), a, r))
     self.side.append(L("(=> (fp.isNaN {0}) (fp.isNaN {1}))", a, r))
@@ -218,12 +237,17 @@ class Builder(object):
     return r
 
   def close_stubs(self):
-    """pairwise monotonicity / functionality between stubs of the same kind"""
+    """pairwise monotonicity / functionality between stubs of the same kind (idempotent)"""
+    done = getattr(self, "_closed", set())
+    self._closed = done
     for kind in ("log", "tanh", "sigmoid"):
       ss = [s for s in self.stubs if s["kind"] == kind]
       for i in range(len(ss)):
         for j in range(i + 1, len(ss)):
           a, b = ss[i], ss[j]
+          if (a["res"].nid, b["res"].nid) in done:
+            continue
+          done.add((a["res"].nid, b["res"].nid))
           self.side.append(L("(=> (fp.leq {0} {1}) (fp.leq {2} {3}))", a["arg"], b["arg"], a["res"], b["res"]))
           self.side.append(L("(=> (fp.leq {1} {0}) (fp.leq {3} {2}))", a["arg"], b["arg"], a["res"], b["res"]))
 
@@ -374,7 +398,7 @@ def build_smt(builder, asserts, get_values=None, logic="QF_BVFP", extra_decls=()
       for k, sc in enumerate(builder.side):
         if k in used:
           continue
-        owners = [n for n in sc.nodes if isinstance(n, Node) and n.nid in res_ids]
+        owners = [n for n in sc.flat_nodes() if n.nid in res_ids]
         if owners and all(o.nid in em.done for o in owners):
           used.add(k)
           strs.append(sc.resolve(em))
